@@ -303,6 +303,8 @@ def c04(rec):
     if rec.get("mod") != "storage":
         return []
     k, v = opk(rec)
+    if k == "setParams":
+        return gov_params(rec, "C04", ["polRatio", "referralCommission", "pricePerTbPerMonth"])
     if k not in ("buyStorage", "postFile"):
         return []
     out = unchanged_if_failed(rec, "C04")
@@ -474,6 +476,17 @@ def expected_post_price(pre, h, v):
     return storage_cost_kbs(pre["params"]["pricePerTbPerMonth"], kbs, hours, v["jklPrice"])
 
 
+def gov_params(rec, prop, keys):
+    """a governance parameter change (by key) must leave exactly the parameters governance asked for"""
+    if rec.get("mod") != "storage" or not isinstance(rec.get("op"), dict) or "setParams" not in rec["op"] or not rec["ok"]:
+        return []
+    want, got = rec["op"]["setParams"], rec["post"]["params"]
+    bad = [k for k in keys if want.get(k) != got.get(k)]
+    if bad:
+        return [V(prop, "governance-parameter-misapplied", f"governance set {', '.join(f'{k}={want[k]}' for k in bad)} by key; the module now reads {', '.join(f'{k}={got[k]}' for k in bad)}")]
+    return []
+
+
 # ---------------------------------------------------------------- C05 (panics are reported by bin/check itself)
 
 def c05(rec):
@@ -643,7 +656,7 @@ def c14(rec):
 def c15(rec):
     if rec.get("mod") != "storage":
         return []
-    out = []
+    out = gov_params(rec, "C15", ["collateralPrice"])
     k, v = opk(rec)
     pre, post = rec["pre"], rec["post"]
     b0, b1 = bank(pre), bank(post)
